@@ -53,8 +53,9 @@ ASSUMPTIONS = [
     "'completed before the failure' = invocations logged before the failing one (sequential) / invocations of "
     "earlier generations (executor); 'loadable' = load_outputs on the run folder returns the element",
     "fresh Pipeline object per case (ErrorSnapshot is 'last failure of that function in this process')",
-    "map requests with an internal axis before a mapped axis are excluded (known defect of DictArray/FileArray.dump, "
-    "repaired elsewhere)",
+    "storage='shared_memory_dict' is only explored with parallel=False and with pipefunc's own pool: with a "
+    "caller-owned executor, tasks of the failing generation may still be running when map raises and persists the "
+    "shared dict, so the persisted content of THAT generation is timing dependent (nothing is claimed about it)",
 ]
 TRUSTED = ["Model/Failing.v + Model/FailingMap.v mirror handle_error / _execute_func / PipeFunc.__call__ / the "
            "generation loop of pipefunc/map/_run.py by hand; tie = per-run differential execution",
@@ -315,23 +316,6 @@ def _gen_pipe(rng, tier, n_pipes):
     return cases
 
 
-def _internal_axes_last(req):
-    """Exclude requests with an internal axis placed before a mapped axis (known dump defect, see ASSUMPTIONS)."""
-    for f in req["funcs"]:
-        sp = f.get("spec")
-        if not sp or not sp["i"]:
-            continue
-        named = {a for _, ax in sp["i"] for a in ax if a is not None}
-        seen_internal = False
-        for a in sp["o"][0][1]:
-            if a in named:
-                if seen_internal:
-                    return False
-            else:
-                seen_internal = True
-    return True
-
-
 def _probe_request(req):
     """Generation lists (function names, real order) and the call log of the run without failure."""
     sink = io.StringIO()
@@ -351,7 +335,7 @@ def _gen_map(rng, tier, n_req, modes, max_calls, shared_share):
     while done < n_req and tries < 50 * n_req:
         tries += 1
         req = mapgen.gen_request(rng, max_funcs=3, max_size=3 if rng.random() < 0.3 else 2)
-        if mapgen.request_size(req) > 14 or not _internal_axes_last(req):
+        if mapgen.request_size(req) > 14:
             continue
         try:
             gens, calls = _probe_request(req)
@@ -372,6 +356,10 @@ def _gen_map(rng, tier, n_req, modes, max_calls, shared_share):
                     r = rng.random()
                     r2["storage"] = ("shared_memory_dict" if r < shared_share
                                      else ("dict" if r < 0.5 + shared_share / 2 else "file_array"))
+                    if r2["storage"] == "shared_memory_dict" and mode not in ("seq", "procdefault"):
+                        # a caller-owned executor may still be running tasks of the failing generation when map
+                        # raises and persists the shared dict: what is on disk then depends on timing
+                        r2["storage"] = "file_array"
                     cases.append({"kind": "map", "req": r2, "gens": gens, "mode": mode, "tgt": tgt,
                                   "ffn": tgt.split("(", 1)[0], "exc": kind, "ncalls": len(calls), "idx": i})
         if rng.random() < 0.3:
@@ -383,12 +371,12 @@ def _gen_map(rng, tier, n_req, modes, max_calls, shared_share):
 
 def generate(rng, tier, mult):
     if tier == "quick":
-        cases = _gen_pipe(rng, tier, 60 * mult)
-        cases += _gen_map(rng, tier, 45 * mult, ["seq", "thread"], max_calls=14, shared_share=0.025)
+        cases = _gen_pipe(rng, tier, 120 * mult)
+        cases += _gen_map(rng, tier, 110 * mult, ["seq", "thread"], max_calls=14, shared_share=0.04)
     else:
         cases = _gen_pipe(rng, tier, 300 * mult)
         cases += _gen_map(rng, tier, 55 * mult, ["seq", "thread", "proc", "procdefault", "athread", "aproc"],
-                          max_calls=14, shared_share=0.01)
+                          max_calls=14, shared_share=0.03)
     return cases
 
 
